@@ -112,6 +112,33 @@ def render(spec):
     return type_text(spec) + "\n" + run_code(spec)
 
 
+def control(spec):
+    """Same program, derive_ex replaced by hand-written stub impls of every form: the harness itself must compile."""
+    t = type_text(spec)
+    t = "\n".join(l for l in t.splitlines() if not l.startswith("#["))
+    g = ""
+    if spec["generic"]:
+        ps = sorted({x for x in spec["ftypes"] if x in ("T", "U")})
+        g = "<" + ", ".join(ps) + ">"
+    me = "Ty" + g
+    out = [t]
+    for op in spec["ops"]:
+        if op in C.BINOPS:
+            fn = C.OPFN[op]
+            for l in (me, "&" + me):
+                for r in (me, "&" + me):
+                    out.append(f"impl{g} ::core::ops::{op}<{r}> for {l} {{ type Output = {me}; fn {fn}(self, _: {r}) -> {me} {{ loop {{}} }} }}")
+        elif op in C.ASSIGNOPS:
+            fn = C.OPFN[op[:-6]] + "_assign"
+            for r in (me, "&" + me):
+                out.append(f"impl{g} ::core::ops::{op}<{r}> for {me} {{ fn {fn}(&mut self, _: {r}) {{ loop {{}} }} }}")
+        else:
+            fn = C.OPFN[op]
+            for l in (me, "&" + me):
+                out.append(f"impl{g} ::core::ops::{op} for {l} {{ type Output = {me}; fn {fn}(self) -> {me} {{ loop {{}} }} }}")
+    return "\n".join(out) + "\n" + run_code(spec).replace("pub fn run() {", "pub fn run() { if true { return; }")
+
+
 def expected(spec, op, pair):
     res = []
     for i in range(len(spec["ftypes"])):
@@ -199,7 +226,11 @@ def corpus(tier, rng):
 def run(rep, tier, rng):
     specs = corpus(tier, rng)
     cases = [C.Case(f"c{i}", render(s), {"spec": s}) for i, s in enumerate(specs)]
-    _, notes = C.run_cases(cases, "c08", header=HEADER, batch_size=60)
+    ctls = [C.Case(f"k{i}", control(s), {}) for i, s in enumerate(specs)]
+    _, notes = C.run_cases(cases + ctls, "c08", header=HEADER, batch_size=60)
+    ctl_ok = {c.name[1:]: c.status == "ok" for c in ctls}
+    rep.count("controls_compiled", sum(ctl_ok.values()))
+    rep.count("controls_rejected", sum(1 for v in ctl_ok.values() if not v))
     for n in notes:
         rep.inconcl(n)
     sigs = {}
@@ -209,8 +240,8 @@ def run(rep, tier, rng):
             continue
         if c.status == "compile_fail":
             who, d0 = C.blame(c)
-            if who == "harness":
-                rep.inconcl(f"generated program does not compile outside derive_ex's output: {str(d0['message'])[:150]}")
+            if who == "harness" and not ctl_ok.get(c.name[1:]):
+                rep.inconcl(f"generated program does not compile and neither does its hand-written control: {str(d0['message'])[:150]}")
                 continue
             msg, code = d0["message"] or "", str(d0["code"])
             sigs.setdefault(f"C08|compile_fail|{code}|{msg[:50]}", []).append((c, f"does not compile: {msg[:200]}"))
